@@ -160,7 +160,14 @@ func (re *resEngine) summarize(fr *vframe, successOnly bool, fields []string) *r
 				if !any {
 					break
 				}
-				sub := re.summarize(nf, false, fields)
+				// a callee whose last result is an error contributes what it guarantees on its success
+				// returns: callers proceed only on err == nil (ignoring the error of a read helper is
+				// reported by C07.errors)
+				subSuccess := false
+				if rs := g.Signature.Results(); rs.Len() > 0 && isErrorType(rs.At(rs.Len()-1).Type()) {
+					subSuccess = true
+				}
+				sub := re.summarize(nf, subSuccess, fields)
 				for f, ps := range sub.early {
 					if !st[f] {
 						for _, p := range ps {
@@ -181,6 +188,8 @@ func (re *resEngine) summarize(fr *vframe, successOnly bool, fields []string) *r
 							ok = true
 						} else if _, isPhi := x.Results[0].(*ssa.Phi); isPhi {
 							ok = true
+						} else if c, isCall := x.Results[0].(*ssa.Call); isCall && calleeOf(c) != nil && inSlim(calleeOf(c)) && onlyReturned(c) {
+							ok = true // tail call "return helper(...)": the helper's success summary was applied at the call
 						}
 					}
 				}
@@ -250,4 +259,21 @@ func paramIdx(f *ssa.Function, m map[ssa.Value]bool) []int {
 		}
 	}
 	return out
+}
+
+// onlyReturned: the call's value is used by return instructions only (a tail call).
+func onlyReturned(c *ssa.Call) bool {
+	refs := c.Referrers()
+	if refs == nil || len(*refs) == 0 {
+		return false
+	}
+	for _, r := range *refs {
+		if _, ok := r.(*ssa.Return); !ok {
+			if _, isDbg := r.(*ssa.DebugRef); isDbg {
+				continue
+			}
+			return false
+		}
+	}
+	return true
 }
